@@ -72,7 +72,8 @@ def analyse(program):
             res.violations.append(v)
         for (rule, what, b) in eng.obligations:
             w = eng.where(b)
-            res.obligations.add((rule, what, w["fn"], w["bb"], "%s:%s" % (w["file"], w["line"])))
+            via = w["via"][-1] if w["via"] else ""
+            res.obligations.add((rule, what, w["fn"], "%s%s" % (w["bb"], (" via " + via.replace("cactusref::", "")) if via else ""), "%s:%s" % (w["file"], w["line"])))
         # structural rules that use the interpreter's view of iterators
         rules_struct.iter1(eng, sv)
         rules_struct.search_closures(eng, closures, sv)
@@ -87,7 +88,9 @@ def analyse(program):
         v["entry_short"] = short(v["entry"]) if v.get("entry") else None
         res.violations.append(v)
     for (rule, what, where) in sv.obligations:
-        if isinstance(where, tuple) and len(where) == 2 and isinstance(where[1], int) and where[0] in P.facts.fns:
+        if isinstance(where, tuple) and where and where[0] == "raw":
+            res.obligations.add((rule, what, where[1], where[2], "L%s" % where[3]))
+        elif isinstance(where, tuple) and len(where) == 2 and isinstance(where[1], int) and where[0] in P.facts.fns:
             g = P.inlined(P.facts.fns[where[0]])
             p = g.prov[where[1]] if where[1] < len(g.prov) else (where[0], where[1], ())
             t = g.blocks[where[1]]["term"] if where[1] < len(g.blocks) else {}
